@@ -356,6 +356,20 @@ def compare_(c, impl_line, drv_line):
         if abs(tot - 1) > Fraction(1, 10 ** 14):
             return "impl_vs_spec", f"normalize: the exact sum of the returned intensities is 1 {'+' if tot > 1 else '-'} {float(abs(tot - 1)):.3e} (> 1e-14)"
     if boundary:
+        # a threshold within 1e-9 of a boundary: WHICH side the f64 sums fall on is not specified — but a panic or a non-finite
+        # result is wrong on either side, and so is anything but "every peak" when both sides of the last boundary keep them all
+        if isinstance(i, str) and not isinstance(s, str):
+            return "impl_vs_spec", f"impl {impl_line[:120]} where every admissible outcome is a pattern (spec {spec_s[:120]})"
+        if c["op"] == "trunc" and c["peaks"]:
+            t = c["args"][0]
+            before_last = sum(x[1] for x in c["peaks"][:-1])
+            if t > before_last * (1 + Fraction(1, 10 ** 9)) + Fraction(1, 10 ** 300):
+                # at or beyond the total, reached by the last peak or never: all peaks either way
+                if not (isinstance(i, tuple) and len(i[1]) == len(c["peaks"])):
+                    return "impl_vs_spec", f"truncate_after({float(t)}) near / above the total must keep all {len(c['peaks'])} peaks: impl {impl_line[:160]}"
+                if spec_s != "unspecified" and isinstance(s, tuple) and len(s[1]) == len(c["peaks"]) and not same_out(i, s):
+                    return "impl_vs_spec", f"impl {impl_line[:200]} spec {spec_s[:200]}"
+                return "ok", ""
         return "skipped", ""
     if spec_s != "unspecified" and not same_out(m, s):
         return "broken", f"model and spec differ: {model_s[:120]} vs {spec_s[:120]}"
